@@ -58,13 +58,24 @@ def replay(chk, units, keyfn, sample=None, seed=0, label='b1', pack=40, cc=True,
         chk.add('traces_validated_against_impl')
         nontrivial.add(json.dumps([u['term'], u['exp']], sort_keys=True))
         if not ok:
-            chk.violation('%s | %s' % (keyfn(u), o.get('text')), why,
+            chk.violation('%s | %s | %s' % (failure_kind(why), keyfn(u), o.get('text')), why,
                           {'env': u['env'], 'term': u['term'], 'expected': u['exp'],
                            'observed': {k: v for k, v in o.items() if k != 'tb'}})
         else:
             chk.sample({'script': o.get('text'), 'expected': u['exp'] if len(json.dumps(u['exp'])) < 600 else '...'})
     chk.add('distinct_nontrivial', len(nontrivial))
     return us, obs
+
+
+def failure_kind(why):
+    for k, pat in (('raw', 'raw (non-VTL)'), ('comps', 'components differ'), ('value', 'value of '), ('rows', 'row count'),
+                   ('missing', 'missing datapoint'), ('noerror', 'VTL defines a runtime error'), ('error', 'engine raised'),
+                   ('columns', 'columns differ'), ('scalar', 'scalar ')):
+        if pat in why:
+            if k == 'raw':
+                return 'raw:' + why.split('RAW:')[1].split(' ')[0] if 'RAW:' in why else 'raw'
+            return k
+    return 'other'
 
 
 def judge(exp, o, cc=True):
@@ -91,7 +102,7 @@ def validate(chk, units, keyfn, pack=40, module='VTLOperators_Trace', cfg='VTLOp
             raise RuntimeError(o['machinery'])
         chk.add('evaluations')
         if 'err' in o and o['err'].startswith('RAW:'):
-            chk.violation('%s | %s' % (keyfn(u), o.get('text')), 'raw (non-VTL) exception escaped: %s %s' % (o['err'], o.get('msg')),
+            chk.violation('raw:%s | %s | %s' % (o['err'][4:], keyfn(u), o.get('text')), 'raw (non-VTL) exception escaped: %s %s' % (o['err'], o.get('msg')),
                           {'env': u['env'], 'term': u['term'], 'observed': o})
             continue
         if o.get('err') == 'SemanticError':
@@ -113,7 +124,7 @@ def validate(chk, units, keyfn, pack=40, module='VTLOperators_Trace', cfg='VTLOp
         chk.add('traces_validated_against_impl')
         nontrivial.add(json.dumps(u['term'], sort_keys=True) + str(len(o.get('rows', []))))
         if not v['ok']:
-            chk.violation('%s | %s' % (keyfn(u), o.get('text')), v['why'],
+            chk.violation('%s | %s | %s' % (failure_kind(v['why']), keyfn(u), o.get('text')), v['why'],
                           {'env': u['env'], 'term': u['term'], 'expected': v.get('exp'), 'observed': o})
     chk.add('distinct_nontrivial', len(nontrivial))
     return live_u, live_o, verdicts
